@@ -316,6 +316,26 @@ func c06ReplyEnvelopes(r *Run) {
 		}
 		r.Case("unaryreply", in, routeCanon(rep)+"~"+envCanon(rep))
 		r.Count("replies.unary." + kind)
+		// the same request with metadata that does not decode: the early Internal reply
+		if i%4 == 1 {
+			q := proto.Clone(req).(*Rpc)
+			q.Header.Headers = []*goatorepo.KeyValue{{Key: "x-bin", Value: "!!"}}
+			ok := within(hangTimeout, func() { sc.In <- q; rep = <-sc.Out })
+			if !ok {
+				r.Violate("replies.hang", "ops", "no reply to a request with malformed metadata", in, nil, nil)
+				return
+			}
+			code := "none"
+			if rep.Status != nil {
+				code = fmt.Sprint(rep.Status.Code)
+			}
+			r.Case("badmetareply", fmt.Sprintf("%d|%s|%s|%s|%s", id, hxs(mUnary), hxs(src), hxs("srv"), hxList(record)),
+				fmt.Sprintf("%s~code=%s~body=%d~trailer=%d", routeCanon(rep), code, b2i(rep.Body != nil), b2i(rep.Trailer != nil)))
+			r.Count("replies.badmeta")
+			if rep.Id != id || rep.GetHeader().GetSource() != "srv" || rep.GetHeader().GetDestination() != src || rep.GetStatus().GetCode() == 0 {
+				r.Violate("replies.badmeta.route", "ops", "the reply to a unary request with malformed metadata is not a non-OK status addressed back to the caller (same id, source and destination swapped)", in, routeCanon(rep), fmt.Sprintf("id=%d src=srv dst=%s", id, src))
+			}
+		}
 		// a body for a stream the server does not know: the reset envelope
 		if i%3 == 0 {
 			q := &Rpc{Id: id + 5000, Header: &goatorepo.RequestHeader{Method: mBidi, Source: src, Destination: "srv", ProxyRecord: record}, Body: &goatorepo.Body{}}
